@@ -189,7 +189,7 @@ class CHECK(Check):
                  "generated from the source) + malformed-input stream against every entry point in every container type")
     level_text = ("Theorems: for every descriptor, an entry point accepts iff the descriptor is well formed; each listed defect "
                   "(length mismatch in any argument position, label outside {0,1}, missing sensitive feature, degenerate group, "
-                  "unsupported combination, control features for ThresholdOptimizer, both bounds / ratio outside (0,1], bad costs, "
+                  "unsupported combination, control features for ThresholdOptimizer, both bounds / ratio outside (0,1] / negative difference_bound or ratio_bound_slack, bad costs, "
                   "constraint_weight outside [0,1], duplicate or non-string names, predict before fit for EVERY prediction "
                   "entry point in the lifted guard table, prediction-time sensitive features of the wrong length / missing for "
                   "ThresholdOptimizer, sample_params that is no dict / names an unknown metric / holds a non-dict) forces rejection; the "
@@ -208,7 +208,7 @@ class CHECK(Check):
             "ndarray/dict) with at most ONE injected defect: length off by k in {1,2,3,n-1} (longer or shorter) in each argument "
             "position incl. X, a non-0/1 label (2,-1,1/2,3,'1','a',nan) at a random row, missing sensitive feature (None or "
             "omitted) / missing y, a group lacking one label (ThresholdOptimizer), unsupported or unknown constraint/objective, "
-            "control features for ThresholdOptimizer, both bounds, ratio_bound outside (0,1], bad cost dicts, constraint_weight "
+            "control features for ThresholdOptimizer, both bounds, ratio_bound outside (0,1], negative difference_bound / ratio_bound_slack, bad cost dicts, constraint_weight "
             "outside [0,1], duplicate / non-string feature names, predict or transform before fit, unknown sensitive column for "
             "CorrelationRemover; every prediction entry point (predict, predict_proba, _pmf_predict, transform, _raw_predict of "
             "TO, InterpolatedThresholder, EG, GS, CorrelationRemover, adversarial classifier and regressor) before fit in every "
@@ -229,7 +229,8 @@ class CHECK(Check):
                "mismatches they are given (modelled as a comparison of lengths)",
                "the descriptor abstraction: a non-numeric or NaN label is sent to the model as the value 2; group labels as ids")
     assumptions = ("out-of-range is limited to what the documentation defines (ratio_bound in (0,1], costs, constraint_weight in "
-                   "[0,1]); a negative difference_bound is not counted",
+                   "[0,1], difference_bound >= 0, ratio_bound_slack >= 0 when a ratio bound is given — a negative slack makes "
+                   "project_lambda lower the Lagrangian, C07)",
                    "a 2-d sensitive feature array of shape (1,n) (squeezed by MetricFrame) is not generated",
                    "which exception class is raised is only compared for NotFittedError and GridSearch's RuntimeError")
 
@@ -429,16 +430,27 @@ class CHECK(Check):
         r = rng.random()
         if r < 0.45:
             cls = rng.choice(PARITY)
-            mode = rng.choice(["default", "diff", "ratio_ok", "ratio_ok", "both", "ratio_bad", "ratio_bad", "ratio_bad"])
+            mode = rng.choice(["default", "diff", "ratio_ok", "ratio_ok", "both", "ratio_bad", "ratio_bad", "ratio_bad",
+                               "neg_diff", "neg_diff", "neg_slack", "neg_slack"])
             diff = ratio = None
+            slack = rng.choice([None, "0", "1/10"])
             if mode in ("diff", "both"):
-                diff = rng.choice(["1/100", "0", "1/2", "1/4", "-1/10", "2"])
-            if mode in ("ratio_ok", "both"):
+                diff = rng.choice(["1/100", "0", "1/2", "1/4", "2"])
+            if mode == "neg_diff":
+                diff = rng.choice(["-1", "-1/10", "-1/1048576", "-2"])
+                if rng.random() < 0.3:
+                    slack = "-1/10"     # ignored without a ratio bound: the defect is the negative difference bound
+            if mode in ("ratio_ok", "both", "neg_slack"):
                 ratio = rng.choice(["1", "1/2", "1/1024", "4/5", "1.0"])
+            if mode == "neg_slack":
+                slack = rng.choice(["-1/10", "-1", "-1/1048576"])
+            if mode == "default" and rng.random() < 0.3:
+                slack = "-1/10"         # ratio_bound_slack is ignored if ratio_bound is not specified: well formed
             if mode == "ratio_bad":
                 ratio = rng.choice(["0", "-1/2", "5/4", "2", "1048577/1048576", "-1", "0.0", "nan", "inf"])
-            return {"ep": "parity", "cls": cls, "diff": diff, "ratio": ratio, "slack": rng.choice([None, "0", "1/10"]),
-                    "defect": {"both": "both_bounds", "ratio_bad": f"ratio:{ratio}"}.get(mode)}
+            return {"ep": "parity", "cls": cls, "diff": diff, "ratio": ratio, "slack": slack,
+                    "defect": {"both": "both_bounds", "ratio_bad": f"ratio:{ratio}", "neg_diff": f"negdiff:{diff}",
+                               "neg_slack": f"negslack:{slack}"}.get(mode)}
         if r < 0.8:
             mode = rng.choice(["none", "ok", "ok", "neg_fp", "neg_fn", "both_zero", "missing_key", "extra_key", "not_dict", "wrong_key", "nan"])
             fp, fn = rng.choice(["1", "2", "1/2", "0"]), rng.choice(["1", "3", "1/4"])
@@ -540,6 +552,12 @@ class CHECK(Check):
                 bad = not (0 < F(ratio) <= 1)
                 yield {"ep": "parity", "cls": cls, "diff": None, "ratio": ratio, "slack": None, "defect": f"ratio:{ratio}" if bad else None}
             yield {"ep": "parity", "cls": cls, "diff": "1/100", "ratio": "1/2", "slack": None, "defect": "both_bounds"}
+            for diff in ["-1", "-1/1048576", "0"]:
+                yield {"ep": "parity", "cls": cls, "diff": diff, "ratio": None, "slack": None,
+                       "defect": f"negdiff:{diff}" if F(diff) < 0 else None}
+            for slack in ["-1/10", "-1/1048576", "0"]:
+                yield {"ep": "parity", "cls": cls, "diff": None, "ratio": "1/2", "slack": slack,
+                       "defect": f"negslack:{slack}" if F(slack) < 0 else None}
         for fp, fn in [("0", "0"), ("0", "1"), ("1", "0"), ("-1/1048576", "1"), ("1", "-1/1048576"), ("1/1048576", "0"), ("0", "-1")]:
             ok = F(fp) >= 0 and F(fn) >= 0 and F(fp) + F(fn) > 0
             yield {"ep": "costs", "costs": {"kind": "dict", "items": {"fp": fp, "fn": fn}}, "defect": None if ok else "costs:boundary"}
@@ -684,6 +702,11 @@ class CHECK(Check):
                 r = case["ratio"]
                 if r in ("nan", "inf") or not (0 < F(r) <= 1):
                     return False, None, "C20.bad_bounds_rejected"
+                # the slack of a ratio constraint must not be negative (it is ignored when no ratio bound is given)
+                if case["slack"] is not None and F(case["slack"]) < 0:
+                    return False, None, "C20.bad_bounds_rejected(negative ratio_bound_slack)"
+            elif case["diff"] is not None and F(case["diff"]) < 0:
+                return False, None, "C20.bad_bounds_rejected(negative difference_bound)"
             return True, None, "C20.accepts_iff_wellFormed"
         if ep == "costs":
             sp = case["costs"]
@@ -748,7 +771,9 @@ class CHECK(Check):
             if case["ratio"] in ("nan", "inf"):
                 return []
             return [f"val.parity {proto.b(case['diff'] is not None)} {proto.b(case['ratio'] is not None)} "
-                    f"{proto.rat(F(case['ratio'])) if case['ratio'] is not None else '1'}"]
+                    f"{proto.rat(F(case['ratio'])) if case['ratio'] is not None else '1'} "
+                    f"{proto.rat(F(case['diff'])) if case['diff'] is not None else '0'} "
+                    f"{proto.rat(F(case['slack'])) if case['slack'] is not None else '0'}"]
         if ep == "costs":
             sp = case["costs"]
             if sp is None:
